@@ -74,6 +74,10 @@ Qed.
 Lemma nf_chunk : forall dbg buf f, fst (parse_chunk_size dbg buf) <> Faulted f.
 Proof. intros. rewrite Chunk.chunk_ref_eq. apply ref_chunk_no_fault. Qed.
 
+Lemma fin_reqw_forget r : fin_reqw (forget r) = fin_reqw r.
+Proof. destruct r; reflexivity. Qed.
+Lemma fin_respw_forget r : fin_respw (forget r) = fin_respw r.
+Proof. destruct r; reflexivity. Qed.
 Lemma fin_req_forget r : fin_req (forget r) = fin_req r.
 Proof. destruct r; reflexivity. Qed.
 Lemma fin_resp_forget r : fin_resp (forget r) = fin_resp r.
@@ -110,6 +114,20 @@ Definition addr_response_core (cf : config) (buf : list N) (rp : response) (arr 
   let l0 := g_response_core_init (p_version rp) (p_code rp) (p_reason rp) (p_hdrs rp) arr arr in
   start buf (fun s0 => fin_resp (q_to_i (qi_fun (cI B buf (d_response_core B buf E fuel dV dN cf buf)) l0 s0)))
             (fun f => (Faulted f, rp, arr)).
+
+(* the initialised-array entry points: Request::parse_with_config / Response::parse_with_config as translated *)
+Definition addr_request_with_config (cf : config) (buf : list N) (rq : request) : rq_res :=
+  let fuel := S (length buf) in
+  let '(dU, dV, dN) := d_env_of B buf W be fuel in
+  let l0 := g_request_with_config_init (q_method rq) (q_path rq) (q_version rq) (q_hdrs rq) [] [] in
+  start buf (fun s0 => fin_reqw (q_to_i (qi_fun (cI B buf (d_request_with_config B buf E fuel dU dV dN cf buf)) l0 s0)))
+            (fun f => (Faulted f, rq, q_hdrs rq)).
+Definition addr_response_with_config (cf : config) (buf : list N) (rp : response) : rp_res :=
+  let fuel := S (length buf) in
+  let '(dU, dV, dN) := d_env_of B buf W be fuel in
+  let l0 := g_response_with_config_init (p_version rp) (p_code rp) (p_reason rp) (p_hdrs rp) [] [] in
+  start buf (fun s0 => fin_respw (q_to_i (qi_fun (cI B buf (d_response_with_config B buf E fuel dV dN cf buf)) l0 s0)))
+            (fun f => (Faulted f, rp, p_hdrs rp)).
 
 Definition addr_parse_headers (src : list N) (dst : list slot) : status * list slot * list slot :=
   let fuel := S (length src) in
@@ -160,6 +178,38 @@ Proof.
   pose proof (sim_forget B buf _ _ _ _ _ _ l0 (cur_new buf) HS (proj2 (tie_iter_new B buf))) as T.
   destruct (ifun _ l0 (cur_new buf)) as [a l' c'|l'|e l'|f l'|x l' c'];
     try (rewrite T; apply fin_resp_forget).
+  exfalso. apply (NF f Hb). reflexivity.
+Qed.
+
+Theorem addr_request_with_config_model cf buf rq : bytes_ok buf ->
+  addr_request_with_config cf buf rq = request_with_config E cf buf rq.
+Proof.
+  intros Hb. pose proof (nf_request E E_ok EConfig cf buf [] rq) as NF.
+  cbn [request_call] in NF. rewrite <- (tie_request_with_config E E_fwd cf buf rq [] []) in *.
+  unfold addr_request_with_config.
+  destruct (d_env_of B buf W be (S (length buf))) as [[dU dV] dN]. rewrite start_new.
+  set (l0 := g_request_with_config_init _ _ _ _ _ _) in *.
+  pose proof (proj2 (lift_sound B buf) _ _ _ _ _ (d_request_with_config B buf E (S (length buf)) dU dV dN cf buf)) as HS.
+  apply (simI_fun B buf) in HS.
+  pose proof (sim_forget B buf _ _ _ _ _ _ l0 (cur_new buf) HS (proj2 (tie_iter_new B buf))) as T.
+  destruct (ifun _ l0 (cur_new buf)) as [a l' c'|l'|e l'|f l'|x l' c'];
+    try (rewrite T; apply fin_reqw_forget).
+  exfalso. apply (NF f Hb). reflexivity.
+Qed.
+
+Theorem addr_response_with_config_model cf buf rp : bytes_ok buf ->
+  addr_response_with_config cf buf rp = response_with_config E cf buf rp.
+Proof.
+  intros Hb. pose proof (nf_response E E_ok EConfig cf buf [] rp) as NF.
+  cbn [response_call] in NF. rewrite <- (tie_response_with_config E E_fwd cf buf rp [] []) in *.
+  unfold addr_response_with_config.
+  destruct (d_env_of B buf W be (S (length buf))) as [[dU dV] dN]. rewrite start_new.
+  set (l0 := g_response_with_config_init _ _ _ _ _ _) in *.
+  pose proof (proj2 (lift_sound B buf) _ _ _ _ _ (d_response_with_config B buf E (S (length buf)) dV dN cf buf)) as HS.
+  apply (simI_fun B buf) in HS.
+  pose proof (sim_forget B buf _ _ _ _ _ _ l0 (cur_new buf) HS (proj2 (tie_iter_new B buf))) as T.
+  destruct (ifun _ l0 (cur_new buf)) as [a l' c'|l'|e l'|f l'|x l' c'];
+    try (rewrite T; apply fin_respw_forget).
   exfalso. apply (NF f Hb). reflexivity.
 Qed.
 
